@@ -123,6 +123,39 @@ func VC10Sandwich(form0, form int) {
 	vAssert("mem", bus1.Peek(probe) == bus2.Peek(probe))
 }
 
+// no I/O device attached (IO == nil, a supported configuration): the same
+// 2-copy obligation for the I/O encodings, and the sandwich - CPU 1 reads a
+// port, an unrelated device-less CPU 0 writes any port, CPU 2 (equal to CPU 1)
+// reads the port again and must see what CPU 1 saw.
+func VC10NilIO(tbl, op int) {
+	var s, s0 States
+	vHavoc(&s, "s")
+	vHavoc(&s0, "s0")
+	bus1 := vNewBus("bus")
+	vPlace(bus1, s.PC, tbl, op)
+	bus2 := bus1.Fork("bus2")
+	bus0 := vNewBus("bus0")
+	k := vU8("k")
+	if vCase(vBool("out-n")) {
+		vPut(bus0, s0.PC, 0xd3, int(k)) // OUT (n),A
+	} else {
+		vPut(bus0, s0.PC, 0xed, 0x79) // OUT (C),A
+	}
+	var c1, c2 CPU
+	vHavocFields(&c1, "h1", vPublicCPU)
+	vHavocFields(&c2, "h2", vPublicCPU)
+	c1.States, c2.States = s, s
+	c1.Memory, c2.Memory = bus1, bus2
+	c0 := &CPU{States: s0, Memory: bus0}
+	c1.Step()
+	c0.Step()
+	c2.Step()
+	vAssert("state", c1.States == c2.States)
+	vAssert("trace", vTraceSeqEq(bus1, bus2))
+	probe := vU16("probe")
+	vAssert("mem", bus1.Peek(probe) == bus2.Peek(probe))
+}
+
 // a CPU rebuilt from a copy of States and memory at the boundary after any
 // instruction continues exactly like the original.
 // mode: 0 = the next instruction is a NOP; 1 = a maskable request (mode 1) is
